@@ -18,6 +18,9 @@ type aval struct {
 	coef  int64  // of the symbol
 	k     int64  // constant part
 	conv  string // the symbol is what this conversion method returned (a different scale)
+	// what was handed to that conversion: the original symbol plus pre (known only if preOK)
+	pre   int64
+	preOK bool
 }
 
 func (a aval) isConst() bool { return a.known && a.coef == 0 }
@@ -173,7 +176,13 @@ func (pe *peval) run(fn *ssa.Function, args []aval, depth int) []poutcome {
 					continue
 				}
 				if pe.convNames[sf.Name()] && sf.Signature.Recv() != nil {
-					fr.env[x] = aval{known: true, coef: 1, conv: sf.Name()}
+					nv := aval{known: true, coef: 1, conv: sf.Name()}
+					if len(x.Call.Args) > 0 {
+						if in := val(x.Call.Args[0]); in.known && in.coef == 1 && in.conv == "" {
+							nv.pre, nv.preOK = in.k, true
+						}
+					}
+					fr.env[x] = nv
 					continue
 				}
 				if inModule(sf) && sf.Blocks != nil && len(sf.Params) == len(x.Call.Args) {
